@@ -37,8 +37,9 @@ Decides necessary structural conditions only (never that decoded values equal wh
    o5m-reset-on-marker              decode_data calls reset() exactly for dataset byte 0xff (exhaustive over 0..255)
  clause 6  o5m string reference ring
    o5m-ring-constants               the slot counter wraps at 15000, the stride covers the longest stored string, table sized entries * stride
-   o5m-ring-add                     add() stores exactly the strings of size <= max_length at slot current*entry_size, then advances the
-                                    slot by one and wraps at number_of_entries
+   o5m-ring-add                     add() stores exactly the strings of size <= 250 + 2; for EVERY prior counter value c in [0, N-1] (N = table
+                                    size / stride; exhaustive abstract execution over the counter only) the copy goes to slot c -- inside the
+                                    table -- and the counter afterwards is (c + 1) mod N, so it stays in [0, N-1]
    o5m-ring-get                     get() rejects exactly index 0 and index > number_of_entries, and addresses slot
                                     (current + k*N - index) % N with the same N and the same entry size
  extra     o5m dataset framing
@@ -1275,6 +1276,80 @@ def _reached_for(fn, nid, d, v, extra=None):
     return True
 
 
+def _run_counter(fn, cur, size_d, size_v, c0, mul_id, copy_id):
+    """Abstract execution of one call of add() tracking only the slot counter (member `cur`), for prior value c0 and byte count
+    size_v.  Returns (counter afterwards, [slot index used by the copy destination], number of copies).  Raises Shape for any
+    operation on the counter other than ++ / -- / = const / += const / comparison with constants."""
+    st = {'c': c0}
+    vals = {}
+
+    def value_of(f, node):
+        k = node.get('k')
+        if k == 'unop' and node.get('op') in ('++', '--') and this_field(f, f.sn(node['sub'])) == cur:
+            return vals.get(node['id'])
+        if this_field(f, node) == cur:
+            return st['c']
+        if k == 'var' and node.get('d') == size_d:
+            return size_v
+        if k == 'var' and node.get('vk') == 'param':
+            return 1            # non-null pointer argument (assert(string))
+        if k == 'call' and node.get('q', '').endswith('::empty'):
+            return False        # table already allocated; the other branch only allocates
+        return None
+    slots = []
+    ncopy = 0
+    b = fn.entry
+    steps = 0
+    while steps < 400:
+        steps += 1
+        blk = fn.blocks[b]
+        for e in blk['elems']:
+            n = fn.nodes[e]
+            k = n.get('k')
+            if k == 'unop' and n.get('op') in ('++', '--') and this_field(fn, fn.sn(n['sub'])) == cur:
+                old = st['c']
+                st['c'] = old + (1 if n['op'] == '++' else -1)
+                vals[e] = old if n.get('postfix') else st['c']
+            elif k == 'assign' and this_field(fn, fn.sn(n['lhs'])) == cur:
+                v = fn.const_value(n['rhs'])
+                if v is None or n.get('op') not in ('=', '+=', '-='):
+                    raise Shape('the counter is assigned %s' % fn.expr(n['rhs']))
+                st['c'] = v if n['op'] == '=' else st['c'] + (v if n['op'] == '+=' else -v)
+            elif k == 'unop' and n.get('op') == '&' and this_field(fn, fn.sn(n['sub'])) == cur:
+                raise Shape('the address of the counter is taken')
+            elif e == mul_id:
+                sides = [strip_casts(fn, n['lhs']), strip_casts(fn, n['rhs'])]
+                got = None
+                for sd_ in sides:
+                    if sd_ is not None and fn.const_value(sd_['id']) is None:
+                        got = value_of(fn, sd_)
+                if got is None:
+                    raise Shape('slot index of the copy destination is not the counter')
+                slots.append(int(got))
+            elif e == copy_id:
+                ncopy += 1
+            elif k == 'throw':
+                raise Shape('add() throws')
+        if b == fn.exit:
+            return st['c'], slots, ncopy
+        succs = blk['succs']
+        if 'cond' in blk and len(succs) == 2:
+            r = eval_cond(fn, blk['cond'], value_of)
+            if r is None:
+                raise Shape('condition %s cannot be evaluated over the counter' % fn.expr(blk['cond']))
+            nb = succs[0] if r else succs[1]
+        elif len(succs) == 1:
+            nb = succs[0]
+        elif not succs:
+            raise Shape('execution ends in block B%d' % b)
+        else:
+            raise Shape('multi-way branch in add()')
+        if nb is None:
+            raise Shape('pruned edge taken in block B%d' % b)
+        b = nb
+    raise Shape('add() does not terminate in 400 steps')
+
+
 def o5m_ring_rules(fb, R, TABLE=NS + 'ReferenceTable'):
     adds = [f for f in fb.fns(TABLE + '::add') if f.has_cfg]
     gets = [f for f in fb.fns(TABLE + '::get') if f.has_cfg]
@@ -1306,7 +1381,12 @@ def o5m_ring_rules(fb, R, TABLE=NS + 'ReferenceTable'):
             m = fn.nodes[x]
             if m.get('k') == 'binop' and m['op'] == '*':
                 sides = [strip_casts(fn, m['lhs']), strip_casts(fn, m['rhs'])]
-                f = [t for t in sides if this_field(fn, t) is not None]
+                f = []
+                for t in sides:
+                    if t is not None and t.get('k') == 'unop' and t.get('op') in ('++', '--'):
+                        t = fn.sn(t['sub'])     # table[counter++ * stride]: the counter evaluation below decides which value is used
+                    if this_field(fn, t) is not None:
+                        f.append(t)
                 c = [t for t in sides if t is not None and fn.const_value(t['id']) is not None]
                 if len(f) == 1 and len(c) == 1:
                     dest = (this_field(fn, f[0]), fn.const_value(c[0]['id']), f[0]['name'])
@@ -1330,49 +1410,70 @@ def o5m_ring_rules(fb, R, TABLE=NS + 'ReferenceTable'):
                 'the table, so from such a pair on every back-reference of the file is off by one entry'
                 % (fn.q, 'drops' if wrong and wrong[0] <= RING_MAXLEN else 'stores', wrong[0] if wrong else '', RING_MAXLEN),
                 detail={'stored_for_size': {str(k): v for k, v in sorted(verdicts.items())}})
-        # ---- advance by one after the copy, wrap
-        msgs = []
-        incs = [n for n in fn.all_nodes() if n.get('k') == 'unop' and n['op'] == '++' and this_field(fn, fn.sn(n['sub'])) == cur]
-        other = [n for n in fn.all_nodes() if (n.get('k') == 'assign' and this_field(fn, fn.sn(n['lhs'])) == cur and
-                                               not (n.get('op') == '=' and fn.const_value(n['rhs']) == 0))
-                 or (n.get('k') == 'unop' and n['op'] == '--' and this_field(fn, fn.sn(n['sub'])) == cur)]
-        if len(incs) != 1 or other:
-            R.broken('%s: the slot counter %s is not advanced by a single ++' % (fn.q, dest[2]))
+        # ---- table extent: N slots of ES bytes
+        tbl = None
+        tsite = site
+        for n in fn.all_nodes():
+            if n.get('k') == 'call' and n.get('q') in ('std::basic_string::resize', 'std::vector::resize') and n.get('args'):
+                tbl = fn.const_value(n['args'][0])
+                tsite = fn.loc(n['id'])
+        if tbl is None or ES <= 0:
+            R.broken('%s: the table is not allocated with a constant size in add()' % fn.q)
             continue
-        inc = incs[0]
-        if not fn.elem_dominates(cp['id'], inc['id']):
-            msgs.append('%s is advanced before the copy (or not on the path of the copy): get(1) must address the slot written last' % dest[2])
-        ids = {inc['id']}
-        w = path_search(fn, cp['id'], _exit_t, lambda x: x in ids)
-        if w is not None:
-            msgs.append('after storing a string a path leaves add() without advancing %s: the next string overwrites it' % dest[2])
-        zero = [n for n in fn.all_nodes() if n.get('k') == 'assign' and n.get('op') == '=' and this_field(fn, fn.sn(n['lhs'])) == cur
-                and fn.const_value(n['rhs']) == 0]
-        for z in zero:
-            for (c, sense, _b) in edge_guards(fn, z['id'], loop_exits=True):
-                n = strip_casts(fn, c)
-                if n is not None and n.get('k') == 'binop' and n['op'] in ('==', '>=') and sense:
-                    l = strip_casts(fn, n['lhs'])
-                    cv = fn.const_value(n['rhs'])
-                    if l is not None and (l['id'] == inc['id'] or this_field(fn, l) == cur) and cv is not None:
-                        N = cv
-                        if not fn.elem_dominates(inc['id'], z['id']):
-                            msgs.append('the wrap test does not follow the increment of %s' % dest[2])
-        if N is None:
-            msgs.append('%s is never wrapped to 0 (`if (counter == number of entries) counter = 0`)' % dest[2])
-        R.check(not msgs, R_RADD, key0 + '#slot-advance', fn.loc(inc['id']), '%s: %s' % (fn.q, '; '.join(msgs)))
-        # ---- constants
-        if N is not None:
-            R.check(N == RING_ENTRIES, R_RCONST, TABLE + '#number-of-entries', site,
-                    'the o5m string table wraps after %d entries in this reader; the format fixes it at %d, so a reference older than %d '
-                    'resolves to a different string than the writer meant' % (N, RING_ENTRIES, min(N, RING_ENTRIES)))
+        R.check(tbl % ES == 0, R_RCONST, TABLE + '#table-size', tsite,
+                'the table is sized %d bytes, not a multiple of the %d-byte stride its entries are written with' % (tbl, ES))
+        N = tbl // ES
+        R.check(N == RING_ENTRIES, R_RCONST, TABLE + '#number-of-entries', tsite,
+                'the o5m string table holds %d entries in this reader; the format fixes it at %d, so a reference older than %d '
+                'resolves to a different string than the writer meant' % (N, RING_ENTRIES, min(N, RING_ENTRIES)))
         R.check(ES >= stored_max, R_RCONST, TABLE + '#entry-size', site,
                 'entries are %d bytes apart but strings of up to %d bytes are stored: neighbouring entries overlap' % (ES, stored_max))
-        for n in fn.all_nodes():
-            if n.get('k') == 'call' and n.get('q') in ('std::basic_string::resize', 'std::vector::resize') and n.get('args') and N is not None:
-                v = fn.const_value(n['args'][0])
-                R.check(v == ES * N, R_RCONST, TABLE + '#table-size', fn.loc(n['id']),
-                        'the table is sized %s bytes, number of entries * entry size is %d' % (v, ES * N))
+        # ---- counter invariant, decided for EVERY prior counter value c in [0, N-1] by abstract execution of add() over the counter
+        #      alone (the only operations on it are ++ / = const / comparisons with constants; anything else => analysis-broken):
+        #      storing path: the slot written is c (so the write [c*ES, c*ES+size) stays inside the N*ES table) and the counter
+        #      afterwards is (c + 1) mod N, hence again in [0, N-1]; non-storing path: no write, counter unchanged.
+        if N > 2000000:
+            R.broken('%s: table of %d entries is too large for the exhaustive counter evaluation' % (fn.q, N))
+            continue
+        mul_id = None
+        for x in fn.subtree(cp['args'][2]):
+            m = fn.nodes[x]
+            if m.get('k') == 'binop' and m['op'] == '*':
+                mul_id = x
+        store_size = stored_max if stored_max > 0 else 1
+        skip_size = next((v for v, st in sorted(verdicts.items()) if not st), None)
+        first_bad = {}
+        try:
+            for c0 in range(N):
+                c1, slots, ncopy = _run_counter(fn, cur, sd, store_size, c0, mul_id, cp['id'])
+                if ncopy != 1 or len(slots) != 1:
+                    first_bad.setdefault('copy', 'for counter %d the string is copied %d times' % (c0, ncopy))
+                else:
+                    if not (0 <= slots[0] < N):
+                        first_bad.setdefault('slot', 'with the counter at %d the string is copied to slot %d = byte offset %d of a %d-byte table '
+                                                     '(%d slots): the write runs past the end of the table' % (c0, slots[0], slots[0] * ES, tbl, N))
+                    elif slots[0] != c0:
+                        first_bad.setdefault('slotc', 'with the counter at %d the string is written to slot %d; get(1) addresses the slot the '
+                                                      'counter pointed to before the call' % (c0, slots[0]))
+                if not (0 <= c1 < N):
+                    first_bad.setdefault('range', 'a call with the counter at %d leaves it at %d, outside [0, %d]: the next string is written '
+                                                  'to byte offset %d of the %d-byte table' % (c0, c1, N - 1, c1 * ES, tbl))
+                elif c1 != (c0 + 1) % N:
+                    first_bad.setdefault('step', 'a call with the counter at %d leaves it at %d instead of %d (advance by one, wrap at %d)'
+                                         % (c0, c1, (c0 + 1) % N, N))
+            if skip_size is not None:
+                for c0 in (0, 1, N // 2, N - 2, N - 1):
+                    if 0 <= c0 < N:
+                        c1, slots, ncopy = _run_counter(fn, cur, sd, skip_size, c0, mul_id, cp['id'])
+                        if ncopy or c1 != c0:
+                            first_bad.setdefault('skip', 'a string too long for the table (size %d) still moves the counter (%d -> %d) or is '
+                                                         'copied' % (skip_size, c0, c1))
+        except Shape as ex:
+            R.broken('%s: counter evaluation: %s' % (fn.q, ex))
+            continue
+        R.check(not first_bad, R_RADD, key0 + '#slot-advance', fn.loc(cp['id']),
+                '%s: %s' % (fn.q, '; '.join(first_bad[k] for k in sorted(first_bad))),
+                detail={'counter_values_evaluated': N, 'slots': N, 'stride': ES})
     if cur is None or ES is None or N is None:
         return
 
